@@ -53,6 +53,12 @@ type c35Chan struct {
 	ReadBuf   int      `json:"read_buf"`
 	LateRead  bool     `json:"late_read"` // the Go application starts reading only when refpeer has used the whole window
 	Requests  int      `json:"requests"`  // Channel.SendRequest(wantReply) calls in parallel
+	// Half-closed phases.  "local": the Go application calls CloseWrite() when its writers are done and
+	// the peer sends all of In/InErr/InDrop only AFTER it has seen that EOF; "remote": the peer sends EOF
+	// after its streams and the Go writers start only after the application has read that EOF; "both":
+	// local, then remote, then Close().
+	Half  string `json:"half,omitempty"`
+	Twice bool   `json:"twice,omitempty"` // CloseWrite is called a second time
 }
 
 type c35Plan struct {
@@ -158,6 +164,12 @@ func genC35Plan(t *rapid.T) *c35Plan {
 			c.ReadBuf = n
 		}
 		c.Requests = []int{0, 0, 1, 5}[pick(t, "requests", 4)]
+		c.Half = []string{"", "", "", "", "", "local", "local", "remote", "remote", "both"}[pick(t, "half", 10)]
+		c.Twice = pick(t, "twice", 3) == 0
+		if c.Half == "both" {
+			c.Huge = false // the channel is closed at the end: no overflow phase on it
+			c.Overflow = false
+		}
 		p.Chans = append(p.Chans, c)
 	}
 	// at most one bulk (>= 2 MiB, the window of the Go side) transfer per history keeps the cost bounded
@@ -179,6 +191,10 @@ func genC35Plan(t *rapid.T) *c35Plan {
 			}
 		default:
 			c.InDrop = 2<<20 + 70000 + pick(t, "indrop.l", 100000) // only possible when discarded bytes are credited back
+		}
+		if b >= 1 && pick(t, "bulkhalf", 2) == 0 && c.Half != "both" {
+			// more than the Go side's whole window arrives after the application's CloseWrite
+			c.Half = "local"
 		}
 	}
 	if p.Hold == 0 && pick(t, "hold2", 5) == 0 {
@@ -211,6 +227,12 @@ type c35Peer struct {
 	usedAll  chan struct{} // closed when refpeer has spent the window completely at least once
 	usedOnce sync.Once
 	adjusts  int
+
+	goEOF     chan struct{} // closed when the Go side's CHANNEL_EOF has been seen
+	goEOFOnce sync.Once
+	eofSeen   int
+	closeSeen bool
+	sendWG    sync.WaitGroup // refpeer's sender goroutines of this channel
 }
 
 type c35Run struct {
@@ -240,6 +262,8 @@ type c35Stats struct {
 	dropBulk          bool
 	ext2              bool
 	held              int
+	half              []string
+	halfBulk          bool
 }
 
 func (r *c35Run) fail(format string, a ...any) {
@@ -372,6 +396,10 @@ func (r *c35Run) peerLoop() {
 				r.fail("data packet for channel %d which does not exist", m.Recipient)
 				continue
 			}
+			if c.eofSeen > 0 {
+				r.fail("channel %d: %d bytes of data (extended=%v) after the Go side's CHANNEL_EOF (RFC 4254 5.3: no more data after EOF)", c.idx, len(m.Data), m.Ext)
+				continue
+			}
 			if err := c.credit.OnData(len(m.Data)); err != nil {
 				r.fail("channel %d (window %d, max packet %d): %v", c.idx, c.plan.Window, c.plan.MaxPkt, err)
 				continue
@@ -401,6 +429,25 @@ func (r *c35Run) peerLoop() {
 				r.fail("channel %d ext=%v: %d bytes received, only %d were written", c.idx, m.Ext, *off, want)
 			}
 			r.maybeGrant(c)
+		case refpeer.MsgChannelEOF, refpeer.MsgChannelClose:
+			id, _ := mx.U32At(p, 1)
+			r.mu.Lock()
+			c := r.byPeer[id]
+			r.mu.Unlock()
+			if c == nil {
+				r.fail("EOF/CLOSE for an unknown channel %d", id)
+				continue
+			}
+			if p[0] == refpeer.MsgChannelEOF {
+				if c.plan.Half != "local" && c.plan.Half != "both" {
+					r.fail("channel %d: CHANNEL_EOF although the application never called CloseWrite", c.idx)
+				}
+				c.eofSeen++
+				c.goEOFOnce.Do(func() { close(c.goEOF) })
+			} else if !c.closeSeen {
+				c.closeSeen = true
+				pc.WritePacket(mx.Close(c.goID))
+			}
 		case refpeer.MsgChannelWindowAdjust:
 			id, _ := mx.U32At(p, 1)
 			n, ok := mx.U32At(p, 5)
@@ -502,7 +549,7 @@ func runC35Refpeer(p *c35Plan) (string, c35Stats, error) {
 		pong: make(chan struct{}, 2), errCh: make(chan struct{})}
 	expectEnd := false
 	for i := range p.Chans {
-		c := &c35Peer{idx: i, plan: &p.Chans[i], peerID: c35PeerBase + uint32(i), usedAll: make(chan struct{})}
+		c := &c35Peer{idx: i, plan: &p.Chans[i], peerID: c35PeerBase + uint32(i), usedAll: make(chan struct{}), goEOF: make(chan struct{})}
 		c.scond = sync.NewCond(&c.smu)
 		c.credit = mx.NewCredit(c.plan.Window, c.plan.MaxPkt)
 		r.chans = append(r.chans, c)
@@ -637,7 +684,25 @@ func runC35Refpeer(p *c35Plan) (string, c35Stats, error) {
 		if ch == nil {
 			return finish(mx.Result{}, "")
 		}
+		localHalf := pl.Half == "local" || pl.Half == "both"
+		remoteHalf := pl.Half == "remote" || pl.Half == "both"
+		sawEOF := make(chan struct{}) // closed when the application has read the peer's EOF on stdout
+		var wwg sync.WaitGroup        // the Go-side writers of this channel
+		if pl.Half != "" {
+			r.stats.half = append(r.stats.half, pl.Half)
+		}
 		writer := func(w io.Writer, size int, seed uint32, name string) {
+			defer wwg.Done()
+			if pl.Half == "remote" {
+				// the other half-close: local writes continue after the peer's EOF has been read
+				select {
+				case <-sawEOF:
+				case <-r.violCh:
+					return
+				case <-r.errCh:
+					return
+				}
+			}
 			off := 0
 			buf := make([]byte, 0, pl.OutChunk)
 			for off < size {
@@ -661,10 +726,12 @@ func runC35Refpeer(p *c35Plan) (string, c35Stats, error) {
 		}
 		if pl.Out > 0 {
 			r.stats.streams++
+			wwg.Add(1)
 			work.Go(func() { writer(ch, pl.Out, c35Seed(i, 0), "stdout") })
 		}
 		if pl.Err > 0 {
 			r.stats.streams++
+			wwg.Add(1)
 			work.Go(func() { writer(ch.Stderr(), pl.Err, c35Seed(i, 1), "stderr") })
 		}
 		if pl.Ext2 > 0 {
@@ -678,10 +745,41 @@ func runC35Refpeer(p *c35Plan) (string, c35Stats, error) {
 			r.stats.streams++
 			r.stats.ext2 = true
 			code2 := pl.Code2
+			wwg.Add(1)
 			work.Go(func() { writer(x.Extended(code2), pl.Ext2, c35Seed(i, 5), fmt.Sprintf("extended stream %d", code2)) })
 		}
-		if pl.Requests > 0 {
+		closedWrite := make(chan struct{})
+		if localHalf {
+			// half-close by the application once its writers are done; the receive direction stays open
 			work.Go(func() {
+				defer close(closedWrite)
+				wwg.Wait()
+				if r.violation() != "" {
+					return
+				}
+				if err := ch.CloseWrite(); err != nil {
+					r.fail("channel %d: CloseWrite returned %v", i, err)
+					return
+				}
+				if pl.Twice {
+					ch.CloseWrite()
+				}
+				if n, err := ch.Write([]byte("late")); n != 0 || err == nil {
+					r.fail("channel %d: Write after CloseWrite returned (%d, %v), want an error and 0 bytes", i, n, err)
+				}
+				if n, err := ch.Stderr().Write([]byte("late")); n != 0 || err == nil {
+					r.fail("channel %d: Stderr().Write after CloseWrite returned (%d, %v), want an error and 0 bytes", i, n, err)
+				}
+				prog.Tick()
+			})
+		} else {
+			close(closedWrite)
+		}
+		var rwg sync.WaitGroup
+		if pl.Requests > 0 {
+			rwg.Add(1)
+			work.Go(func() {
+				defer rwg.Done()
 				for k := 0; k < pl.Requests; k++ {
 					ok, err := ch.SendRequest("r", true, []byte{byte(k)})
 					prog.Tick()
@@ -713,33 +811,97 @@ func runC35Refpeer(p *c35Plan) (string, c35Stats, error) {
 					return
 				}
 				off += n
-				if err != nil {
+				if err != nil && !(err == io.EOF && remoteHalf && off == size) {
 					if !expectEnd {
 						r.fail("channel %d %s: Read returned %v after %d of %d bytes", i, name, err, off, size)
 					}
 					return
 				}
 			}
+			if remoteHalf {
+				// the peer's EOF follows its last byte: exactly here the stream must end
+				n, err := rd.Read(buf)
+				prog.Tick()
+				if n != 0 || err != io.EOF {
+					r.fail("channel %d %s: after all %d bytes and the peer's EOF, Read returned (%d, %v), want (0, EOF)", i, name, size, n, err)
+				}
+			}
 		}
-		if pl.In > 0 {
+		if pl.In > 0 || remoteHalf {
 			r.stats.streams++
-			work.Go(func() { reader(ch, pl.In, c35Seed(i, 2), "stdout") })
+			work.Go(func() {
+				reader(ch, pl.In, c35Seed(i, 2), "stdout")
+				close(sawEOF)
+			})
 		}
 		if pl.InErr > 0 {
 			r.stats.streams++
 			work.Go(func() { reader(ch.Stderr(), pl.InErr, c35Seed(i, 3), "stderr") })
 		}
+		send := func(code uint32, seed uint32, n int) {
+			pc.sendWG.Add(1)
+			work.Go(func() {
+				defer pc.sendWG.Done()
+				if localHalf {
+					// everything refpeer sends on this channel follows the Go side's EOF
+					select {
+					case <-pc.goEOF:
+					case <-r.violCh:
+						return
+					case <-r.errCh:
+						return
+					}
+				}
+				r.peerSend(pc, code, seed, n)
+			})
+		}
 		if pl.In > 0 {
-			work.Go(func() { r.peerSend(pc, 0, c35Seed(i, 2), pl.In) })
+			send(0, c35Seed(i, 2), pl.In)
 		}
 		if pl.InErr > 0 {
-			work.Go(func() { r.peerSend(pc, 1, c35Seed(i, 3), pl.InErr) })
+			send(1, c35Seed(i, 3), pl.InErr)
 		}
 		if pl.InDrop > 0 {
-			work.Go(func() { r.peerSend(pc, pl.InCode, c35Seed(i, 4), pl.InDrop) })
+			send(pl.InCode, c35Seed(i, 4), pl.InDrop)
 			if pl.InDrop >= 2<<20 {
 				r.stats.dropBulk = true
 			}
+		}
+		if localHalf && pl.In+pl.InErr+pl.InDrop >= 2<<20 {
+			r.stats.halfBulk = true
+		}
+		if remoteHalf {
+			work.Go(func() {
+				if localHalf {
+					select {
+					case <-pc.goEOF:
+					case <-r.violCh:
+						return
+					case <-r.errCh:
+						return
+					}
+				}
+				pc.sendWG.Wait()
+				s.Peer.WritePacket(mx.EOF(pc.goID))
+			})
+		}
+		if pl.Half == "both" {
+			// EOF in both directions, then Close
+			work.Go(func() {
+				select {
+				case <-sawEOF:
+				case <-r.violCh:
+					return
+				case <-r.errCh:
+					return
+				}
+				<-closedWrite
+				wwg.Wait()
+				rwg.Wait()
+				if err := ch.Close(); err != nil && r.violation() == "" {
+					r.fail("channel %d: Close after EOF in both directions returned %v", i, err)
+				}
+			})
 		}
 		if pl.In >= 2<<20 {
 			r.stats.usedWholeGoWindow = true
@@ -956,6 +1118,24 @@ func runC35GoGo(p *c35Plan) (string, c35Stats, error) {
 			}
 		}
 	}
+	// expectEOF: after the stream's last byte the reader must see the end of the stream
+	expectEOF := func(name string, rd io.Reader) {
+		var b [16]byte
+		n, err := rd.Read(b[:])
+		prog.Tick()
+		if n != 0 || err != io.EOF {
+			fail("%s: after the last byte and the writer's CloseWrite, Read returned (%d, %v), want (0, EOF)", name, n, err)
+		}
+	}
+	gate := func(ch <-chan struct{}) bool {
+		select {
+		case <-ch:
+			return true
+		case <-violCh:
+			return false
+		}
+	}
+	halfLocal := func(pl *c35Chan) bool { return pl.Half == "local" || pl.Half == "both" }
 	// the server side accepts and mirrors the plan: it reads Out/Err and writes In/InErr
 	all.Go(func() {
 		for nc := range schans {
@@ -967,9 +1147,14 @@ func runC35GoGo(p *c35Plan) (string, c35Stats, error) {
 			}
 			all.Go(func() { ssh.DiscardRequests(reqs) })
 			pl := &p.Chans[i]
-			if pl.Out > 0 {
+			clientEOF := make(chan struct{}) // closed when the server application has read the client's EOF
+			if pl.Out > 0 || halfLocal(pl) {
 				work.Go(func() {
 					drain(fmt.Sprintf("ch%d server stdout", i), ch, pl.Out, pl.ReadBuf, c35Seed(i, 0), pl.LateRead)
+					if halfLocal(pl) {
+						expectEOF(fmt.Sprintf("ch%d server stdout", i), ch)
+						close(clientEOF)
+					}
 				})
 			}
 			if pl.Err > 0 {
@@ -977,12 +1162,37 @@ func runC35GoGo(p *c35Plan) (string, c35Stats, error) {
 					drain(fmt.Sprintf("ch%d server stderr", i), ch.Stderr(), pl.Err, pl.ReadBuf, c35Seed(i, 1), false)
 				})
 			}
+			var swg sync.WaitGroup
 			if pl.In > 0 {
-				work.Go(func() { pump(fmt.Sprintf("ch%d server->client stdout", i), ch, pl.In, pl.OutChunk, c35Seed(i, 2)) })
+				swg.Add(1)
+				work.Go(func() {
+					defer swg.Done()
+					// with a half-closed client everything the server sends follows the client's EOF
+					if halfLocal(pl) && !gate(clientEOF) {
+						return
+					}
+					pump(fmt.Sprintf("ch%d server->client stdout", i), ch, pl.In, pl.OutChunk, c35Seed(i, 2))
+				})
 			}
 			if pl.InErr > 0 {
+				swg.Add(1)
 				work.Go(func() {
+					defer swg.Done()
+					if halfLocal(pl) && !gate(clientEOF) {
+						return
+					}
 					pump(fmt.Sprintf("ch%d server->client stderr", i), ch.Stderr(), pl.InErr, pl.OutChunk, c35Seed(i, 3))
+				})
+			}
+			if pl.Half == "both" {
+				work.Go(func() {
+					if !gate(clientEOF) {
+						return
+					}
+					swg.Wait()
+					if err := ch.CloseWrite(); err != nil {
+						fail("ch%d server CloseWrite: %v", i, err)
+					}
 				})
 			}
 			if int(accepted.Add(1)) == len(p.Chans) {
@@ -995,6 +1205,12 @@ func runC35GoGo(p *c35Plan) (string, c35Stats, error) {
 		i := i
 		pl := &p.Chans[i]
 		st.streams += 4
+		if halfLocal(pl) {
+			st.half = append(st.half, "gogo-"+pl.Half)
+			if pl.In+pl.InErr >= 2<<20 {
+				st.halfBulk = true
+			}
+		}
 		opened.Go(func() {
 			var idb [4]byte
 			binary.BigEndian.PutUint32(idb[:], uint32(i))
@@ -1004,14 +1220,47 @@ func runC35GoGo(p *c35Plan) (string, c35Stats, error) {
 				return
 			}
 			all.Go(func() { ssh.DiscardRequests(reqs) })
+			var cwg sync.WaitGroup
 			if pl.Out > 0 {
-				work.Go(func() { pump(fmt.Sprintf("ch%d client stdout", i), ch, pl.Out, pl.OutChunk, c35Seed(i, 0)) })
+				cwg.Add(1)
+				work.Go(func() {
+					defer cwg.Done()
+					pump(fmt.Sprintf("ch%d client stdout", i), ch, pl.Out, pl.OutChunk, c35Seed(i, 0))
+				})
 			}
 			if pl.Err > 0 {
-				work.Go(func() { pump(fmt.Sprintf("ch%d client stderr", i), ch.Stderr(), pl.Err, pl.OutChunk, c35Seed(i, 1)) })
+				cwg.Add(1)
+				work.Go(func() {
+					defer cwg.Done()
+					pump(fmt.Sprintf("ch%d client stderr", i), ch.Stderr(), pl.Err, pl.OutChunk, c35Seed(i, 1))
+				})
 			}
-			if pl.In > 0 {
-				work.Go(func() { drain(fmt.Sprintf("ch%d client stdout", i), ch, pl.In, pl.ReadBuf, c35Seed(i, 2), false) })
+			if halfLocal(pl) {
+				// the client half-closes when its writers are done and keeps reading (2 MiB window of its own)
+				work.Go(func() {
+					cwg.Wait()
+					if viol.Load() != nil {
+						return
+					}
+					if err := ch.CloseWrite(); err != nil {
+						fail("ch%d client CloseWrite: %v", i, err)
+						return
+					}
+					if pl.Twice {
+						ch.CloseWrite()
+					}
+					if n, err := ch.Write([]byte("late")); n != 0 || err == nil {
+						fail("ch%d client: Write after CloseWrite returned (%d, %v)", i, n, err)
+					}
+				})
+			}
+			if pl.In > 0 || pl.Half == "both" {
+				work.Go(func() {
+					drain(fmt.Sprintf("ch%d client stdout", i), ch, pl.In, pl.ReadBuf, c35Seed(i, 2), false)
+					if pl.Half == "both" {
+						expectEOF(fmt.Sprintf("ch%d client stdout", i), ch)
+					}
+				})
 			}
 			if pl.InErr > 0 {
 				work.Go(func() {
@@ -1107,6 +1356,16 @@ func c35Classes(p *c35Plan, st c35Stats) []string {
 	}
 	if st.ext2 {
 		cl = append(cl, "concurrent-writers-on-two-extended-codes")
+	}
+	seenHalf := map[string]bool{}
+	for _, h := range st.half {
+		if !seenHalf[h] {
+			seenHalf[h] = true
+			cl = append(cl, "half-closed:"+h)
+		}
+	}
+	if st.halfBulk {
+		cl = append(cl, "half-closed:local+more-than-the-2MiB-window-after-CloseWrite")
 	}
 	if p.Hold != 0 && p.Mode == "refpeer" {
 		cl = append(cl, fmt.Sprintf("link-deliver-then-park=%d", p.Hold))
@@ -1210,6 +1469,14 @@ func TestC35(t *testing.T) {
 				runOne(&c35Plan{Mode: "refpeer", GoIsClient: true, Procs: 4, Seed: 37, Hold: 1, Chans: []c35Chan{{PeerOpens: true, Window: 1000, MaxPkt: 32768, In: 2<<20 + 5*32768, InChunk: 32768, ReadBuf: rb, LateRead: true, Refill: 1000}}})
 			}
 		}
+		// half-closed receiver: after the application's CloseWrite the peer sends more than the whole
+		// 2 MiB window of the Go side (data and stderr); the adjusts must keep coming
+		if ev.Mine(2) {
+			runOne(&c35Plan{Mode: "refpeer", GoIsClient: true, Procs: 4, Seed: 38, Chans: []c35Chan{{PeerOpens: true, Window: 4096, MaxPkt: 32768, Out: 3000, OutChunk: 700, Half: "local", In: 2<<20 + 300000, InErr: 200000, InChunk: 32768, ReadBuf: 16384, Refill: 4096}}})
+			runOne(&c35Plan{Mode: "refpeer", GoIsClient: false, Procs: 2, Seed: 39, Chans: []c35Chan{{PeerOpens: false, Window: 64, MaxPkt: 64, Half: "both", Twice: true, In: 100000, InErr: 2<<20 + 100000, InChunk: 32768, ReadBuf: 65536, Refill: 64}}})
+		}
+		// the same Go against Go, on every shard: one side CloseWrite()s, then reads 5 MiB of data and 1 MiB of stderr
+		runOne(&c35Plan{Mode: "gogo", GoIsClient: true, Procs: 4, Seed: 40, Chans: []c35Chan{{Out: 5000, OutChunk: 1000, Half: "local", Twice: ev.Mine(1), In: 5 << 20, InErr: 1 << 20, ReadBuf: 32768}}})
 		rapid.Check(t, func(rt *rapid.T) { runOne(genC35Plan(rt)) })
 	}
 	if inconc != nil {
